@@ -107,6 +107,10 @@ SgrVecs == { Sgr(<<49>>, <<0, -1, -1, -1, -1, -1, -1, 1, 0, -1>>),
              Sgr(<<52, COLON, 51, SEMI, 51>>, <<0, -1, -1, -1, -1, -1, -1, 0, 1, 3>>),
              Sgr(<<50, 50, SEMI, 50, 51, SEMI, 50, 52>>, <<0, -1, -1, -1, -1, -1, -1, 2, 2, 0>>),
              \* a reset in the middle of a sequence discards what precedes it and keeps what follows
+             \* every underline style in the colon form (4:0 = none .. 4:5 = dashed) and the plain 4
+             Sgr(<<52, COLON, 48>>, <<0, -1, -1, -1, -1, -1, -1, 0, 0, 0>>), Sgr(<<52, COLON, 49>>, <<0, -1, -1, -1, -1, -1, -1, 0, 0, 1>>),
+             Sgr(<<52, COLON, 50>>, <<0, -1, -1, -1, -1, -1, -1, 0, 0, 2>>), Sgr(<<52, COLON, 52>>, <<0, -1, -1, -1, -1, -1, -1, 0, 0, 4>>),
+             Sgr(<<52, COLON, 53>>, <<0, -1, -1, -1, -1, -1, -1, 0, 0, 5>>), Sgr(<<52>>, <<0, -1, -1, -1, -1, -1, -1, 0, 0, 1>>),
              Sgr(<<49, SEMI, 48>>, <<1, -1, -1, -1, -1, -1, -1, 0, 0, -1>>),
              Sgr(<<49, SEMI, SEMI, 51>>, <<1, -1, -1, -1, -1, -1, -1, 0, 1, -1>>),
              Sgr(<<51, 56, SEMI, 50, SEMI, 49, SEMI, 50, SEMI, 51, SEMI, 48, SEMI, 52>>, <<1, -1, -1, -1, -1, -1, -1, 0, 0, 1>>) }
